@@ -37,6 +37,10 @@
 (*             <<"mapctx",f,a>> <<"withstate",a>>                          *)
 (*  nesting    <<"nested",a,b>>   (a.nested_in(b))  <<"tree">> leaf        *)
 (*  pratt      <<"pratt",atom,<<ops>>,tablekind>>                          *)
+(*  text       <<"text",name,arg,derived>>: a parser of chumsky::text; in  *)
+(*             the machine it runs `derived`, the grammar text.rs builds   *)
+(*             it from; <<"newline">> (a custom parser), <<"sleq",a,seq>>  *)
+(*             (a.try_map(|slice| slice == seq)), <<"tpadded",a>>          *)
 (*                                                                         *)
 (* hi = -1 means "no upper bound".                                         *)
 (***************************************************************************)
@@ -114,13 +118,41 @@ FirstTok(v) ==
     [] v[1] = "F" -> FirstTokSeq(<<v[3], v[4]>>)
     [] OTHER -> ""
 
+(* Character classes of the text parsers (C14), over a small alphabet of token names:          *)
+(*   0 1 7 9  digits      a f z  letters (a = 10, f = 15, z = 35 as digits of large radices)      *)
+(*   _  underscore        E  a non-ASCII letter (U+00E9, two bytes in &str)                       *)
+(*   S space  T tab  N line feed  R carriage return  V vertical tab  F form feed                  *)
+(*   X U+0085 next line   L U+2028 line separator   P U+2029 paragraph separator   + punctuation   *)
+DigVal(t) == CASE t = "0" -> 0 [] t = "1" -> 1 [] t = "7" -> 7 [] t = "9" -> 9 [] t = "a" -> 10 [] t = "f" -> 15 [] t = "z" -> 35 [] OTHER -> 99
+ClsNewline == {"N", "R", "V", "F", "X", "L", "P"}
+ClsInlineWs == {"S", "T"}
+ClsWs == ClsInlineWs \cup ClsNewline
+ClsAsciiLetter == {"a", "f", "z"}
+ClsDigitChars == {"0", "1", "7", "9"}
+InClass(cls, t) ==
+  CASE cls = "ws" -> t \in ClsWs
+    [] cls = "iws" -> t \in ClsInlineWs
+    [] cls = "nl" -> t \in ClsNewline
+    [] cls = "aidstart" -> t \in ClsAsciiLetter \cup {"_"}
+    [] cls = "aidcont" -> t \in ClsAsciiLetter \cup {"_"} \cup ClsDigitChars
+    [] cls = "uidstart" -> t \in ClsAsciiLetter \cup {"_", "E"}
+    [] cls = "uidcont" -> t \in ClsAsciiLetter \cup {"_", "E"} \cup ClsDigitChars
+    [] cls = "dig2" -> DigVal(t) < 2 [] cls = "dig8" -> DigVal(t) < 8 [] cls = "dig10" -> DigVal(t) < 10
+    [] cls = "dig16" -> DigVal(t) < 16 [] cls = "dig36" -> DigVal(t) < 36
+    [] cls = "nz2" -> DigVal(t) < 2 /\ t # "0" [] cls = "nz8" -> DigVal(t) < 8 /\ t # "0" [] cls = "nz10" -> DigVal(t) < 10 /\ t # "0"
+    [] cls = "nz16" -> DigVal(t) < 16 /\ t # "0" [] cls = "nz36" -> DigVal(t) < 36 /\ t # "0"
+ClassNames == {"ws", "iws", "nl", "aidstart", "aidcont", "uidstart", "uidcont", "dig2", "dig8", "dig10", "dig16", "dig36",
+               "nz2", "nz8", "nz10", "nz16", "nz36"}
+
 (* shared predicate vocabulary: "T" always accepts, "F" always rejects,   *)
-(* "nfa" rejects values whose first token is a                            *)
+(* "nfa" rejects values whose first token is a; a class name accepts the  *)
+(* values whose first token is in the class                               *)
 Pred(p, v) ==
   CASE p = "T" -> TRUE
     [] p = "F" -> FALSE
     [] p = "nfa" -> FirstTok(v) # "a"
     [] p = "fa" -> FirstTok(v) = "a"
+    [] p \in ClassNames -> InClass(p, FirstTok(v))
 
 (* user mappers: symbolic (VM(f, v)) except the few that compute *)
 TokNum(t) == CASE t = "a" -> 1 [] t = "b" -> 2 [] t = "c" -> 3 [] OTHER -> 0
@@ -156,7 +188,10 @@ SomeCanEmpty(s) == \E i \in DOMAIN s : CanEmpty(s[i])
 CanEmpty(g) ==
   LET o == Op(g) IN
   CASE o = "just" -> g[2] = <<>>
-    [] o \in {"any", "oneof", "noneof", "sel", "tree", "anyr", "selr"} -> FALSE
+    [] o \in {"any", "oneof", "noneof", "sel", "tree", "anyr", "selr", "newline"} -> FALSE
+    [] o = "text" -> CanEmpty(g[4])
+    [] o = "sleq" -> CanEmpty(g[2])
+    [] o = "tpadded" -> CanEmpty(g[2])
     [] o \in {"end", "empty", "probe", "cfgjust", "cfgjustr"} -> TRUE
     [] o = "cust" -> g[2] = 0 /\ g[3]
     [] o \in {"then", "ithen", "theni"} -> CanEmpty(g[2]) /\ CanEmpty(g[3])
@@ -203,7 +238,9 @@ WFStrat(s) ==
     [] Op(s) \in {"skipuntil", "retry"} -> WF(s[2]) /\ WF(s[3]) /\ ~CanEmpty(s[2])
 WF(g) ==
   LET o == Op(g) IN
-  CASE o \in {"just", "any", "oneof", "noneof", "sel", "end", "empty", "cust", "probe", "cfgjust", "cfgjustr", "ref", "var", "tree", "anyr", "selr"} -> TRUE
+  CASE o \in {"just", "any", "oneof", "noneof", "sel", "end", "empty", "cust", "probe", "cfgjust", "cfgjustr", "ref", "var", "tree", "anyr", "selr", "newline"} -> TRUE
+    [] o = "text" -> WF(g[4])
+    [] o \in {"sleq", "tpadded"} -> WF(g[2])
     [] o \in {"then", "ithen", "theni", "or", "andis", "thenctx", "ignctx", "nested", "let"} -> WF(g[2]) /\ WF(g[3])
     [] o = "delim" -> WF(g[2]) /\ WF(g[3]) /\ WF(g[4])
     [] o = "padded" -> WF(g[2]) /\ WF(g[3])
@@ -225,7 +262,9 @@ IsNode(x) == /\ DOMAIN x # {} /\ 1 \in DOMAIN x
 HasOp(g, ops) ==
   LET o == Op(g) IN
   \/ o \in ops
-  \/ CASE o \in {"just", "any", "oneof", "noneof", "sel", "end", "empty", "cust", "probe", "cfgjust", "cfgjustr", "ref", "var", "tree", "anyr", "selr"} -> FALSE
+  \/ CASE o \in {"just", "any", "oneof", "noneof", "sel", "end", "empty", "cust", "probe", "cfgjust", "cfgjustr", "ref", "var", "tree", "anyr", "selr", "newline"} -> FALSE
+       [] o = "text" -> HasOp(g[4], ops)
+       [] o \in {"sleq", "tpadded"} -> HasOp(g[2], ops)
        [] o \in {"then", "ithen", "theni", "or", "andis", "thenctx", "ignctx", "nested", "padded", "let"} -> HasOp(g[2], ops) \/ HasOp(g[3], ops)
        [] o = "delim" -> HasOp(g[2], ops) \/ HasOp(g[3], ops) \/ HasOp(g[4], ops)
        [] o \in {"group", "grouparr", "choice", "choicev"} -> AnyHasOp(g[2], ops)
@@ -245,7 +284,7 @@ RECURSIVE SizeSeq(_)
 SizeSeq(s) == IF s = <<>> THEN 0 ELSE Size(Head(s)) + SizeSeq(Tail(s))
 Size(g) ==
   LET o == Op(g) IN
-  CASE o \in {"just", "any", "oneof", "noneof", "sel", "end", "empty", "cust", "probe", "cfgjust", "cfgjustr", "ref", "tree", "anyr", "selr"} -> 1
+  CASE o \in {"just", "any", "oneof", "noneof", "sel", "end", "empty", "cust", "probe", "cfgjust", "cfgjustr", "ref", "tree", "anyr", "selr", "newline", "text"} -> 1
     [] o \in {"then", "ithen", "theni", "or", "andis", "thenctx", "ignctx", "nested", "padded", "sep", "foldl", "foldr", "foldlw", "foldrw", "recover", "skipuntil", "retry"} -> 1 + Size(g[2]) + Size(g[3])
     [] o = "delim" -> 1 + Size(g[2]) + Size(g[3]) + Size(g[4])
     [] o \in {"group", "grouparr", "choice", "choicev"} -> 1 + SizeSeq(g[2])
